@@ -6,6 +6,7 @@ import (
 	"encoding/json"
 	"errors"
 	"flag"
+	"fmt"
 	"io/ioutil"
 	"os"
 	"path/filepath"
@@ -94,6 +95,7 @@ func cmdTeletext(args []string) error {
 	sc := bufio.NewScanner(f)
 	sc.Buffer(make([]byte, 1<<20), 1<<26)
 	n := *n0
+	ci := 0
 	for sc.Scan() {
 		var c ttxCase
 		if err := json.Unmarshal(sc.Bytes(), &c); err != nil {
@@ -110,10 +112,11 @@ func cmdTeletext(args []string) error {
 				return err
 			}
 		}
-		if *dump != "" && n%97 < 2 {
+		ci++
+		if *dump != "" && ci%4 == 1 && ci < 40 {
 			c.St.Norm()
 			if b, err := tsx.Build(c.St); err == nil {
-				ioutil.WriteFile(filepath.Join(*dump, "gen"+string(rune('a'+n%26))+".ts"), b, 0o644)
+				ioutil.WriteFile(filepath.Join(*dump, fmt.Sprintf("gen%d-%d.ts", *n0, ci)), b, 0o644)
 			}
 		}
 	}
